@@ -286,11 +286,14 @@ Definition char_body (d : dec) : res :=
   Ret (VText [if valid then Z.to_N code else 65533%N]).
 
 (* Repeat(env, text, count) *)
+Definition max_repeat_length : Z := 100000%Z.
+
 Definition repeat_body (t : text) (count : Z) : res :=
   if (count <? 0)%Z then Ret VErr
   else match t with
        | [] => Ret (VText [])
-       | _ => Ret (VText (fst (repeat_loop t (Z.to_nat count) [] 0%N)))
+       | _ => if (max_repeat_length <? zlen t * count)%Z then Ret VErr
+              else Ret (VText (fst (repeat_loop t (Z.to_nat count) [] 0%N)))
        end.
 
 (* Replace(env, args...) *)
@@ -666,7 +669,7 @@ Definition pow_body (x y : dec) : res :=
   let a := dec_canonical x in
   let b := dec_canonical y in
   if exponent_out_of_range (dexp a * dec_trunc b) then Ret VErr
-  else if (mant b <? 0)%Z && exponent_out_of_range (num_digits a * dec_trunc b) then Ret VErr
+  else if (1 <? Z.abs (mant a))%Z && exponent_out_of_range (num_digits a * dec_trunc b) then Ret VErr
   else if negb (dec_is_integer b)
           && ((max_fractional_power_digits <? number_magnitude a)%Z || (max_fractional_power_digits <? number_magnitude b)%Z)
        then Ret VErr
@@ -859,7 +862,11 @@ Definition work (f : fname) (args : list value) : N :=
       (to_integer_work a1 +
        match to_text a0, to_integer a1 with
        | Ok t, Ok count => if (count <? 0)%Z then 0%N
-                           else match t with [] => 0%N | _ => snd (repeat_loop t (Z.to_nat count) [] 0%N) end
+                           else match t with
+                                | [] => 0%N
+                                | _ => if (max_repeat_length <? zlen t * count)%Z then 0%N
+                                       else snd (repeat_loop t (Z.to_nat count) [] 0%N)
+                                end
        | _, _ => 0%N
        end)%N
   | (FRound | FRoundUp | FRoundDown), a0 :: r =>
